@@ -14,15 +14,16 @@ LEVEL_TEXT = ("TLC explores CtrlProto.tla (an abstract agent: control state, ser
               "(caches/ROB/translator over an ideal memory, TLB/MMU cache/GMMU over a translation stub, data mover between two memories) "
               "interleaved with live reads/writes/translations/moves; Control- and Top-port events recorded at the agent's own port hooks "
               "plus the projected control state are validated by CtrlTrace.tla; seeded random histories of up to 30 verbs are added.")
-LEVEL_NOTE = ("Exhaustive in the verb space up to the bound; the interleaving with traffic and downstream latency is sampled per run from the "
-              "seed (two sender pacings per sequence, fast/slow downstream). Quick replays all sequences of length <=2 and a seeded sample of "
-              "length 3; thorough replays all of length <=3 and all of length 4 with traffic.")
+LEVEL_NOTE = ("Exhaustive in the verb space up to the bound; the interleaving with traffic, downstream latency and requester back-pressure is "
+              "sampled per run from the seed (sender pacing wait/burst, fast/slow downstream, Top port of capacity 1-2 with a requester that "
+              "stops retrieving around the verbs). Quick replays all sequences of length <=2 and a seeded sample of length 3; thorough "
+              "replays all of length <=3 and all of length 4 with traffic.")
 
 PACINGS = ["wait", "burst"]
 
 
-def hist(b, pacing):
-    return dict(seq=b["seq"], traffic=b["traffic"], pacing=pacing, out=b["out"], ctl=b["ctl"])
+def hist(b, pacing, bp=False):
+    return dict(seq=b["seq"], traffic=b["traffic"], pacing=pacing, bp=bool(bp and b["traffic"]), out=b["out"], ctl=b["ctl"])
 
 
 def random_histories(ck, n, maxlen):
@@ -33,7 +34,8 @@ def random_histories(ck, n, maxlen):
         for _ in range(k):
             # bias towards the verbs that change the state so that invalidate/flush meet both states
             seq.append(ck.rng.choice(ctrlcheck.LETTERS + [["pause", False], ["enable", False], ["drain", False], ["reset", False]]))
-        hs.append(dict(seq=seq, traffic=ck.rng.random() < 0.85, pacing=ck.rng.choice(PACINGS)))
+        traffic = ck.rng.random() < 0.85
+        hs.append(dict(seq=seq, traffic=traffic, pacing=ck.rng.choice(PACINGS), bp=traffic and ck.rng.random() < 0.5))
     return hs
 
 
@@ -42,9 +44,9 @@ def run(ck):
     ck.cov["rule"] = ("(1) CtrlProto.tla model-checked (invariants OneRspPerReq, RspInReqOrder, Refusals, Settles; action properties "
                       "PausedSilent, DrainPost, ResetPost, NoLateRsp, OneAtATime; in the thorough tier also liveness AllAnswered, QueuedServed under weak fairness). (2) every emitted "
                       "behaviour (row, traffic, verb sequence, outcomes, final state) of the agent's row replayed on the real agent with "
-                      "sender pacing wait/burst: the driver compares each response (id, command, outcome) and the settled control state "
+                      "a seeded sender pacing (wait/burst), with and without requester back-pressure: the driver compares each response (id, command, outcome) and the settled control state "
                       "with the model, and CtrlTrace.tla checks the statement's rules on the events recorded at the agent's own Control/Top "
-                      "port hooks. One run = one (agent, sequence, traffic, pacing). Non-trivial = run with traffic and at least two verbs.")
+                      "port hooks. One run = one (agent, sequence, traffic, pacing, back-pressure). Non-trivial = run with traffic and at least two verbs.")
     ck.assumptions += [
         "support matrix = CONTROL_PROTOCOL.md (CtrlMatrix.tla), not the middlewares' switch statements",
         "'emits' is judged at the agent's own port Send hook; Control/Top ordering is the serial order of the hooks",
@@ -55,46 +57,66 @@ def run(ck):
         "a request accepted before a pause and never answered after enable is recorded as a note (request_never_served), not a verdict",
         "TLB built with its default Latency 4 (>= 2), which does not depend on W2 (one-stage pipeline with delay 1; fixed in the repository while this check was being written)",
         "each run ends with an epilogue Enable and two more data requests sent by the driver",
+        "back-pressure runs: the agent's Top port and the requester's incoming buffer have capacity 1-2; around seeded verbs (the first one "
+        "most of the time, later ones and the final Enable about half of the time) the requester stops retrieving responses from before "
+        "the verb is sent (for the first verb until the agent's Top outgoing buffer is full) until a few cycles after its acknowledgment, "
+        "then retrieves again while the agent is still in the state the verb left; coverage[\"acks_with_top_outgoing_full\"] counts "
+        "the successful pause/drain/reset/invalidate/flush acknowledgments sent while the Top outgoing buffer was full",
     ]
-    matrix, by_kind, r = ctrlcheck.model(ck, "CtrlProto_q.cfg", workers=8, timeout=1500)
+    # quick: sequences <=3 with one data request; thorough: <=3 with two, 4 with one, and the fairness properties
+    matrix, by_kind, r = ctrlcheck.model(ck, "CtrlProto_q.cfg" if quick else "CtrlProto_t3.cfg", workers=8, timeout=1500)
     if not quick:
-        # length 4 with one data request (the length <=3 run above has two)
         _, by4, _ = ctrlcheck.model(ck, "CtrlProto_t.cfg", workers=8, timeout=3000)
         for kind, bs in by4.items():
             by_kind[kind] += [b for b in bs if len(b["seq"]) == 4]
-        ctrlcheck.liveness(ck)   # fairness properties AllAnswered, QueuedServed (thorough only: one more JVM)
+        ctrlcheck.liveness(ck)   # AllAnswered, QueuedServed under weak fairness (thorough only: one more JVM)
     ck.cov["support_matrix"] = matrix
     ck.cov["model_behaviours"] = sum(len(v) for v in by_kind.values())
 
+    pace = lambda: ck.rng.choice(PACINGS)
     per_kind = {}
     n_seq = {}
     for kind, bs in by_kind.items():
         hs = []
         if quick:
+            # every sequence of length <=2: without traffic, with traffic, with traffic under back-pressure
+            # (one seeded pacing each); a seeded sample of length 3 with traffic under back-pressure
             short = [b for b in bs if len(b["seq"]) <= 2]
-            long3 = [b for b in bs if len(b["seq"]) == 3]
+            long3 = [b for b in bs if len(b["seq"]) == 3 and b["traffic"]]
             ck.rng.shuffle(long3)
             for b in short:
-                hs += [hist(b, p) for p in PACINGS]
-            for b in long3[:40]:
-                hs.append(hist(b, ck.rng.choice(PACINGS)))
-            n_seq[kind] = (len(short), min(40, len(long3)))
+                hs.append(hist(b, pace()))
+                if b["traffic"]:
+                    hs.append(hist(b, pace(), bp=True))
+            for b in long3[:24]:
+                hs.append(hist(b, pace(), bp=True))
+            n_seq[kind] = (len(short), min(24, len(long3)))
         else:
+            # length <=3: without traffic and with plain traffic one seeded pacing, under back-pressure both
+            # pacings; length 4: with traffic under back-pressure, one seeded pacing
             upto3 = [b for b in bs if len(b["seq"]) <= 3]
             len4 = [b for b in bs if len(b["seq"]) == 4 and b["traffic"]]
             for b in upto3:
-                hs += [hist(b, p) for p in PACINGS]
+                hs.append(hist(b, pace()))
+                if b["traffic"]:
+                    hs += [hist(b, p, bp=True) for p in PACINGS]
             for b in len4:
-                hs.append(hist(b, ck.rng.choice(PACINGS)))
+                hs.append(hist(b, pace(), bp=True))
             n_seq[kind] = (len(upto3), len(len4))
-        hs += random_histories(ck, 4 if quick else 40, 30)
+        hs += random_histories(ck, 2 if quick else 40, 30)
         per_kind[kind] = hs
     ck.cov["sequences_per_row"] = {k: dict(exhaustive=v[0], sampled_or_traffic_only=v[1]) for k, v in n_seq.items()}
     ck.cov["exhaustive"] = True
-    ck.cov["exhaustive_scope"] = ("all verb sequences of length <=2 x traffic x pacing on 12 agents; length 3: seeded sample of 40 per row"
-                                  if quick else "all verb sequences of length <=3 x traffic x 2 pacings, all of length 4 with traffic, on 12 agents")
+    ck.cov["exhaustive_scope"] = (
+        "quick: every verb sequence of length <=2 (8 letters: six verbs, invalidate/flush also filtered) on each of the 12 agents "
+        "x {no traffic, traffic, traffic under back-pressure}, one seeded sender pacing each; length 3: seeded sample of 24 per matrix row "
+        "with traffic under back-pressure; 2 random histories (<=30 verbs) per row"
+        if quick else
+        "thorough: every verb sequence of length <=3 on each of the 12 agents x {no traffic, traffic (one seeded pacing), traffic under "
+        "back-pressure (both pacings)}; every sequence of length 4 with traffic under back-pressure (one seeded pacing); 40 random "
+        "histories (<=30 verbs) per row")
 
-    found, notes = ctrlcheck.replay(ck, "replay", matrix, per_kind, nreq=6, timeout=1500 if quick else 3000, shards=4 if quick else 6)
+    found, notes = ctrlcheck.replay(ck, "replay", matrix, per_kind, nreq=6, timeout=1500 if quick else 3000, shards=3 if quick else 6)
     nt = 0
     for agent, kind in matrix["agents"].items():
         nt += sum(1 for h in per_kind[kind] if h["traffic"] and len(h["seq"]) >= 2)
